@@ -332,6 +332,9 @@ class SgzConverter(SgzReader):
             # segyio will warn us that out padded cube is not contiguous. This is expected, and safe.
             warnings.filterwarnings("ignore", message="Implicit conversion to contiguous array")
             with segyio.create(out_file, spec) as segyfile:
+                if not self.structured and self.include_padding is True:
+                    # Header arrays were last loaded with padding (e.g. by get_tracefield_values), start afresh
+                    self.clear_variant_headers()
                 self.read_variant_headers()
                 # Doing this is fine now there is decent caching on the loader
                 segyfile.trace = [self.get_trace(i) for i in range(self.tracecount)]
